@@ -420,10 +420,16 @@ func multi(n *Nodis, conn *redis.Conn, cmd redis.Command) {
 	conn.WriteOK()
 }
 
+// unwatchAll ends every watch of the connection: its flags are cleared and it leaves the global
+// registry, so that later writes by anyone cannot mark a future transaction of this connection
+func unwatchAll(n *Nodis, conn *redis.Conn) {
+	n.UnWatch(conn, conn.WatchKeys.Keys()...)
+}
+
 func discard(n *Nodis, conn *redis.Conn, cmd redis.Command) {
 	conn.State = redis.MultiNone
 	conn.Commands = nil
-	conn.WatchKeys.Clear()
+	unwatchAll(n, conn)
 	conn.WriteOK()
 }
 
@@ -431,7 +437,7 @@ func exec(n *Nodis, conn *redis.Conn, cmd redis.Command) {
 	defer func() {
 		conn.State = redis.MultiNone
 		conn.Commands = nil
-		conn.WatchKeys.Clear()
+		unwatchAll(n, conn)
 	}()
 	if conn.State&redis.MultiPrepare != redis.MultiPrepare {
 		conn.WriteError("ERR EXEC without MULTI")
@@ -477,7 +483,7 @@ func exec(n *Nodis, conn *redis.Conn, cmd redis.Command) {
 
 func unwatchKey(n *Nodis, conn *redis.Conn, cmd redis.Command) {
 	execCommand(conn, func() {
-		n.UnWatch(conn)
+		unwatchAll(n, conn)
 		conn.WriteOK()
 	})
 }
